@@ -23,6 +23,9 @@ struct SchedParams {
     uint32_t mean_gap = 100;         // mean number of events between preemptions (seeded mode); 0 = never preempt
     uint32_t max_preemptions = 64;
     const Switch *list = nullptr; size_t nlist = 0;     // explicit mode
+    // window-targeted strategy (seeded mode only): preempt `victim` at event `offset` of its operation #`victim_op`, let `runner`
+    // execute one whole operation, then resume the victim
+    int victim = 0, victim_op = -1, runner = 0; uint32_t offset = 0;
 };
 
 struct RunStats { uint64_t events = 0, preemptions = 0, switches = 0, accesses = 0, sync_ops = 0; bool deadlock = false; };
